@@ -148,6 +148,11 @@ func c12Exec(x *Ctx) {
 		rt.SetName("client")
 		defer func() { done = true }()
 		nm, ok := st.version(peer, cm, ver, eff, sdotu)
+		if !ok && uint32(cm) < 24 && !peer.EOF && len(x.Res.Viol) == 0 {
+			// a refused Tversion must leave the connection as it was: a proper one is negotiated as usual afterwards
+			x.Probe("tversion-after-refused-tversion")
+			nm, ok = st.version(peer, 4096, ver, eff, sdotu)
+		}
 		if !ok {
 			return
 		}
